@@ -11,6 +11,9 @@
                   yield result(q.get())                    -- drain
           except GeneratorExit:
               terminate(executor, q); raise                -- cancel loop
+          except BaseException:
+              if backend == "mp": terminate(executor, q)   -- pathos only: part of exitWait (`killOnError`)
+              raise
       (executor.__exit__)                                  -- exitWait
 
   `q` is touched by the consumer thread only, so the interleaving that matters is exactly
@@ -30,7 +33,16 @@ inductive FState (β ε : Type) where
 inductive ExitKind where
   | waitAll        -- concurrent.futures: shutdown(wait=True)
   | killAll        -- multiprocessing.Pool: terminate()
-  | leaveRunning   -- pathos: `__exit__` does nothing
+  | leaveRunning   -- pathos BEFORE the fix: `__exit__` does nothing, whatever travels out
+  /-- pathos AFTER the fix (`except BaseException: if backend == "mp": terminate(executor, q); raise`):
+      when the generator is left with an exception (`.exitWait (some e) closed`) every pending or
+      running future is discarded (exactly what `killAll` does to the table); when it is left
+      without exception (`.exitWait none closed`) nothing is done (exactly `leaveRunning`).
+      The `terminate` call in the `except BaseException` handler and the do-nothing `__exit__` of
+      the pathos pool that follows it are modelled as this single `exitWait` step: between the two
+      the consumer touches neither `q` nor the table, and `terminate` leaves nothing that the pool
+      could still move. -/
+  | killOnError
   deriving Repr, DecidableEq
 
 inductive TermKind where
@@ -149,6 +161,11 @@ def step {α β ε} (s : St α β ε) : Tid → Option (St α β ε)
       | .killAll => some { s with futs := s.futs.map (fun p => if isActive p.2 then (p.1, .cancelled) else p),
                                   c := .done r closed }
       | .leaveRunning => some { s with c := .done r closed }
+      | .killOnError =>
+        match r with
+        | some e => some { s with futs := s.futs.map (fun p => if isActive p.2 then (p.1, .cancelled) else p),
+                                  c := .done (some e) closed }
+        | none => some { s with c := .done none closed }
     | .done _ _ => none
   | .resume =>
     match s.c with
